@@ -70,7 +70,7 @@ pub enum Op {
         /// list the assets in the message in the reverse of the pool's order
         #[serde(default)]
         rev: bool,
-        /// hostile: 0 = attach the declared native funds, 1 = attach no funds at all, 2 = attach only the
+        /// hostile (6 = less than declared of every coin, 7 = more than declared): 0 = attach the declared native funds, 1 = attach no funds at all, 2 = attach only the
         /// funds of the first native asset
         #[serde(default)]
         funds_mode: u8,
@@ -95,6 +95,9 @@ pub enum Op {
         /// alias: the pool itself is named as its fee collector
         #[serde(default)]
         to_pool: bool,
+        /// alias: one of the trading users is named as the fee collector (index into USERS)
+        #[serde(default)]
+        to_user: Option<usize>,
     },
     Donate {
         side: usize,
@@ -206,6 +209,10 @@ impl Pool2 {
     pub fn gen_cfg_fees(rng: &mut Rng) -> [String; 3] {
         gen_fees(rng)
     }
+    /// index of the trading user that is currently configured as the pool's fee collector, if any
+    pub fn collector_user(&self) -> Option<usize> {
+        (0..self.cfg.n_users).find(|i| USERS[*i] == self.collector_now)
+    }
     pub fn user(&self, i: usize) -> &'static str {
         USERS[i % self.cfg.n_users]
     }
@@ -265,6 +272,10 @@ impl Pool2 {
         let mut funds = match mode {
             1 | 3 => vec![],
             2 => self.funds_for(&parts).into_iter().take(1).collect(),
+            // hostile 6: every native coin is attached, but with less than the declared amount
+            6 => self.funds_for(&parts).into_iter().filter_map(|c| { let a = c.amount.u128() / 2; if a > 0 { Some(coin(a, c.denom)) } else { None } }).collect(),
+            // hostile 7: every native coin is attached with more than the declared amount
+            7 => self.funds_for(&parts).into_iter().map(|c| coin(c.amount.u128().saturating_add(1 + c.amount.u128() / 3), c.denom)).collect(),
             _ => self.funds_for(&parts),
         };
         match mode {
